@@ -40,6 +40,10 @@ type ErasedEmitter = Box<dyn emit::emitter::ErasedEmitter + Send + Sync>;
 /// this value drops the handle and then the slot (and with it the emitter).
 struct ViaInit<C: emit::Ctxt + 'static> {
     init: Option<emit::setup::Init<'static, ErasedEmitter, C>>,
+    /// ... or the handle turned into its flush-on-drop guard, the way `main` functions hold it
+    guard: Option<emit::setup::InitGuard<'static, ErasedEmitter, C>>,
+    /// called right after the guard has been dropped (and with it, flushed)
+    after_guard_drop: Option<Box<dyn Fn() + Send + Sync>>,
     slot: *mut emit::runtime::AmbientSlot,
 }
 
@@ -47,30 +51,49 @@ struct ViaInit<C: emit::Ctxt + 'static> {
 unsafe impl<C: emit::Ctxt + 'static> Send for ViaInit<C> where emit::setup::Init<'static, ErasedEmitter, C>: Send {}
 unsafe impl<C: emit::Ctxt + 'static> Sync for ViaInit<C> where emit::setup::Init<'static, ErasedEmitter, C>: Sync {}
 
+impl<C: emit::Ctxt + 'static> ViaInit<C> {
+    fn handle(&self) -> &emit::setup::Init<'static, ErasedEmitter, C> {
+        match (&self.guard, &self.init) {
+            (Some(g), _) => g.inner(),
+            (None, Some(i)) => i,
+            _ => unreachable!("a handle is held until drop"),
+        }
+    }
+}
+
 impl<C: emit::Ctxt + 'static> emit::Emitter for ViaInit<C> {
     fn emit<E: emit::event::ToEvent>(&self, evt: E) {
-        self.init.as_ref().unwrap().get().emit(evt)
+        self.handle().get().emit(evt)
     }
 
     fn blocking_flush(&self, timeout: Duration) -> bool {
-        self.init.as_ref().unwrap().blocking_flush(timeout)
+        self.handle().blocking_flush(timeout)
     }
 }
 
 impl<C: emit::Ctxt + 'static> Drop for ViaInit<C> {
     fn drop(&mut self) {
         self.init.take();
+        if let Some(g) = self.guard.take() {
+            drop(g);
+            if let Some(f) = self.after_guard_drop.take() {
+                f();
+            }
+        }
         // SAFETY: made by `Box::into_raw` in `via_init`; the only borrower (the handle) is gone
         unsafe { drop(Box::from_raw(self.slot)) };
     }
 }
 
-fn via_init(inner: ErasedEmitter) -> ErasedEmitter {
+fn via_init(inner: ErasedEmitter, flush_on_drop: Option<(Duration, Box<dyn Fn() + Send + Sync>)>) -> ErasedEmitter {
     let slot: *mut emit::runtime::AmbientSlot = Box::into_raw(Box::new(emit::runtime::AmbientSlot::new()));
     // SAFETY: the slot lives until `ViaInit::drop`, which drops the handle first
     let slot_ref: &'static emit::runtime::AmbientSlot = unsafe { &*slot };
     let init = emit::setup().emit_to(inner).init_slot(slot_ref);
-    Box::new(ViaInit { init: Some(init), slot })
+    match flush_on_drop {
+        None => Box::new(ViaInit { init: Some(init), guard: None, after_guard_drop: None, slot }),
+        Some((timeout, after)) => Box::new(ViaInit { init: None, guard: Some(init.flush_on_drop(timeout)), after_guard_drop: Some(after), slot }),
+    }
 }
 
 fn markers_in(data: &[u8]) -> Vec<String> {
@@ -123,8 +146,9 @@ impl Engine for FileE2e {
         let reuse = ch.chance(1, 2);
         let writer_kind = if overflow { 0 } else { ch.weighted(&[5, 2, 2, 2, 2, 2]) };
         // how the application holds the emitter: 0 as is, 1 Arc, 2 Option, 3 Wrap, 4/5 And with Empty on either side (And splits the timeout),
-        // 6 installed in a runtime slot through `emit::setup()`: events go through the slot's runtime, flushes through the `Init` handle
-        let holder = ch.weighted(&[4, 1, 1, 1, 1, 1, 2]);
+        // 6 installed in a runtime slot through `emit::setup()`: events go through the slot's runtime, flushes through the `Init` handle,
+        // 7 the same with the handle turned into its flush-on-drop guard (two hours): dropping it is a flush whose result nobody sees
+        let holder = ch.weighted(&[4, 1, 1, 1, 1, 1, 2, 2]);
         // builder call order: the writer installed first (`set_with_writer`) or last (`set(..).<options>.writer(..)`)
         let writer_late = writer_kind != 0 && ch.chance(1, 2);
         let max_size = *ch.pick(&[1usize << 30, 300, 120]);
@@ -379,7 +403,39 @@ impl Engine for FileE2e {
                             )),
                             4 => Box::new(emit::Empty.and_to(inner)),
                             5 => Box::new(inner.and_to(emit::Empty)),
-                            _ => via_init(inner),
+                            6 => via_init(inner, None),
+                            _ => {
+                                // the guard's flush has two hours: more than any stall plus a full retry budget, so it
+                                // succeeds - except in overflow mode and under an hour-long stall (And hands each side half of the timeout),
+                                // where nothing is asserted about it
+                                let (sc2, clog2, fa2, fb2) = (sc.clone(), clog.clone(), fa.clone(), fb.clone());
+                                // ... and in runs where the scheduler may fire a timer while the worker is runnable (a runnable
+                                // thread may be arbitrarily slow: a flush that gives up is then no fault of the code)
+                                let assert_it = !overflow && stall_mode != 2 && sc.lock().early_timer_pct == 0;
+                                via_init(
+                                    inner,
+                                    Some((
+                                        Duration::from_secs(7200),
+                                        Box::new(move || {
+                                            let durable = |fs: &SimFs| -> BTreeSet<String> {
+                                                let mut s = BTreeSet::new();
+                                                for (_, data) in fs.durable_view() {
+                                                    s.extend(markers_in(&data));
+                                                }
+                                                s
+                                            };
+                                            let (da, db) = (durable(&fa2), durable(&fb2));
+                                            sc2.probe("init_guard_dropped");
+                                            sc2.log("the InitGuard was dropped: flush on drop (7200 s) returned".into());
+                                            if assert_it {
+                                                let mut c = clog2.lock().unwrap();
+                                                let n = c.emitted.len();
+                                                c.flushes.push((n, sc2.now(), 7_200_000, true, da, db));
+                                            }
+                                        }),
+                                    )),
+                                )
+                            }
                         };
                         let mut emitted = 0usize;
                         let mut do_flush = |emitted: usize, ms: u64| {
@@ -389,6 +445,11 @@ impl Engine for FileE2e {
                             // what a crash right now would leave on disk
                             let (da, db) = (durable(&fa), durable(&fb));
                             sc.log(format!("blocking_flush({ms}ms) -> {r} after {:?}", t1 - t0));
+                            if std::env::var_os("VSIM_DEBUG_THREADS").is_some() {
+                                for t in sc.tids_by_name("emit_file_worker") {
+                                    sc.log(format!("  debug: worker thread {t} state={}", sc.thread_state_debug(t)));
+                                }
+                            }
                             clog.lock().unwrap().flushes.push((emitted, t1, ms, r, da, db));
                         };
                         for step in steps {
